@@ -46,8 +46,10 @@ Inductive step :=
 (* [CtxEnd dl] (constructor below, after [Cancel]) is the non-terminal form of [Cancel dl]: the
    client's context ends in the same way, but the handler then goes on with the actions that follow
    in the list (SetH / SendH / SetT, S2C = a SendMsg that fails, RecvEOF = a RecvMsg that fails) up
-   to its return [Ret].  What those calls return to the handler is not part of the transcript: on
-   a real connection it depends on whether the stream reset has been processed yet. *)
+   to its return [Ret].  What SetHeader / SendHeader / SendMsg return to the handler is not part of
+   the transcript: on a real connection it depends on whether the stream reset has been processed
+   yet.  What a RecvMsg returns is (the client not having half-closed, nothing can be waiting to be
+   received: the context's end is the only thing to report, on both transports). *)
 
 (* the calling context: still live, cancelled, or past its deadline; ctx.Err() tells the last two apart *)
 Inductive ctxend := CtxLive | CtxCanceled | CtxExpired.
@@ -222,7 +224,8 @@ Definition w_step (fx : fixes) (sh : shape) (r : wrun) (st : step) : wrun * (lis
   | SetT t => (mkWR (w_SetTrailer t s) (wr_resp r) false, ([], []))
   | CloseSend => (mkWR (set_half s) (wr_resp r) false, ([CClosed], []))
   | RecvEOF =>
-      if w_gone s then (if w_half s then (r, stuck) (* both select cases ready *) else (r, ([], [])))
+      if w_gone s then (if w_half s then (r, stuck) (* both select cases ready *)
+                        else (r, ([], [w_server_recv_done fx s])))   (* only ctx.Done() is ready: doneErr *)
       else if w_half s && negb (w_done s) then (r, ([], [SEof])) else (r, stuck)
   | CHeader =>
       match w_Header s with
